@@ -190,7 +190,7 @@ class Ctx:
         if not _has_quantifier(f):
             self.solver.add(f)
 
-    def check(self, name, goal, props=None, info=""):
+    def check(self, name, goal, props=None, info="", backend=None):
         """Emit obligation pc |- goal, then continue under the assumption that it holds."""
         self._alive()
         ob = Obligation(
@@ -201,6 +201,8 @@ class Ctx:
             path=self.labels(),
             info=info,
         )
+        if backend:
+            ob.backend = backend
         self.obligations.append(ob)
         if isinstance(goal, bool):
             return
@@ -522,7 +524,7 @@ def _model_str(m, limit=6000):
 def discharge(ob: Obligation, timeout_ms=PROVE_TIMEOUT_MS, keep_smt2=False, refute=True):
     t0 = time.time()
     if isinstance(ob.goal, bool):
-        ob.backend = "cpython"
+        ob.backend = ob.backend or "cpython"
         ob.verdict = "discharged" if ob.goal else "refuted"
         if not ob.goal:
             ob.model = "decisions: " + " ; ".join(ob.path) + ("\n" + ob.info if ob.info else "")
